@@ -270,6 +270,19 @@ func (b *Builder) call(x *ssa.Call) *Term {
 		args = append(args, b.Term(a))
 	}
 	if bi, ok := cc.Value.(*ssa.Builtin); ok {
+		if (bi.Name() == "min" || bi.Name() == "max") && len(args) == 2 {
+			// builtin min/max and math.Min/math.Max agree on floats except when one operand is NaN and the other
+			// the infinity that math.Min/Max short-cuts on (math.Min(NaN, -Inf) = -Inf, min(NaN, -Inf) = NaN); with a
+			// finite constant operand the two are the same function
+			if bt, ok := x.Type().Underlying().(*types.Basic); ok && bt.Info()&types.IsFloat != 0 {
+				if _, ok := isFloatConst(args[0]); ok {
+					return FMinMax(bi.Name() == "min", args[0], args[1])
+				}
+				if _, ok := isFloatConst(args[1]); ok {
+					return FMinMax(bi.Name() == "min", args[0], args[1])
+				}
+			}
+		}
 		if bi.Name() == "len" && len(args) == 1 && args[0].Op == "list" {
 			// the length of a reconstructed element list is a constant
 			return Const(constant.MakeInt64(int64(len(args[0].Args))), types.Typ[types.Int])
